@@ -36,6 +36,16 @@ namespace
         void execute() override;
     };
 
+    // the user-facing timer: igris::timer_basic<spec, Args...> calls a delegate with stored arguments (igris::timer<Args...>
+    // for the stock time base). Timers with an odd id are of this kind: member-function delegate, arguments (id, 7 - id).
+    template <class TT> struct DelegateTimerT : igris::timer_basic<igris::timer_spec<TT>, int, int>
+    {
+        DelegateTimerT(TimerWorldT<TT> *w, int id)
+            : igris::timer_basic<igris::timer_spec<TT>, int, int>(igris::make_delegate(&TimerWorldT<TT>::on_delegate, w), int(id), int(7 - id))
+        {
+        }
+    };
+
     template <class TT> struct ModelT
     {
         TT start = 0, interval = 1;
@@ -75,7 +85,16 @@ namespace
     {
         typedef igris::timer_manager_basic<igris::timer_spec<TT>> Manager;
         typedef SimTimerT<TT> SimTimer;
+        typedef DelegateTimerT<TT> DelegateTimer;
+        typedef igris::timer_head_basic<igris::timer_spec<TT>> Head;
         typedef ModelT<TT> Model;
+        Head *fresh_timer(int id) { return (id & 1) ? (Head *)new DelegateTimer(this, id) : (Head *)new SimTimer(this, id); }
+        void on_delegate(int id, int check)
+        {
+            if (check != 7 - id) violate("C16/delegate-arguments", "a delegate timer called back with arguments (%d,%d), it was built with (%d,%d)", id, check, id, 7 - id);
+            probe("delegate_timer_fired");
+            on_fire(id);
+        }
         const char *name() const override { return Units<TT>::name(); }
         unsigned weight(Tier) const override { return std::is_same<TT, int64_t>::value ? 6 : 2; }
         TT S = 1; // time units per plan tick
@@ -85,7 +104,7 @@ namespace
         Manager *mgrs[2] = {nullptr, nullptr};
         int cur_mg = 0;
         int nmgr = 1;
-        std::vector<std::unique_ptr<SimTimer>> tim;
+        std::vector<std::unique_ptr<Head>> tim;
         std::vector<Model> model;
         std::vector<Script> script;
         TT now = 0;
@@ -191,7 +210,7 @@ namespace
         void do_destroy(int t)
         {
             tim[t].reset(); // ~timer_head -> ~dlist_node unlinks
-            tim[t].reset(new SimTimer(this, t));
+            tim[t].reset(fresh_timer(t));
             model[t] = Model();
             script[t] = Script();
         }
@@ -306,7 +325,7 @@ namespace
             tim.clear();
             model.assign(n, Model());
             script.assign(n, Script());
-            for (int i = 0; i < n; i++) tim.emplace_back(new SimTimer(this, i));
+            for (int i = 0; i < n; i++) tim.emplace_back(fresh_timer(i));
             int64_t origin = p.c(1, 1000) % 100000;
             now = (TT)origin * S;
             if (origin <= 0) probe("time_origin_not_positive");
@@ -398,7 +417,7 @@ namespace
             // teardown in plan-determined order: destroying planned timers must leave the manager consistent
             for (int i = n - 1; i >= 0; i--)
             {
-                tim[i].reset(new SimTimer(this, i));
+                tim[i].reset(fresh_timer(i));
                 model[i] = Model();
                 check_state("teardown");
             }
